@@ -8,6 +8,7 @@ import NucsModel.Propagators.Circuit
 import NucsModel.Propagators.Alldifferent
 import NucsModel.Propagators.AlldifferentChecked
 import NucsModel.Propagators.Gcc
+import NucsModel.Propagators.GccChecked
 /-!
   The propagator registry: names (taken from the `compute_domains_*` function names of the live
   module on every run — the numeric ALG_* indices are never hard-wired in the model), the
@@ -47,7 +48,8 @@ def runAlg (a : Alg) (ps : List Int) (B : Box) : Res :=
   | .elementLic => .ok (elementLic ps B)
   | .exactlyEq => .ok (exactlyEq ps B)
   | .exactlyTrue => .ok (exactlyTrue ps B)
-  | .gcc => gcc ps B
+  -- the ported algorithm, its answer validated by the proved Hoffman-cut checker (GccChecked.lean)
+  | .gcc => gccC ps B
   | .lexLeq => .ok (lexLeq ps B)
   | .maxEq => .ok (maxEq ps B)
   | .maxLeq => .ok (maxLeq ps B)
